@@ -12,7 +12,25 @@ import (
 )
 
 // Go values of different kinds handed to the builder as "a value"
-var builderValues = []interface{}{"str", int(5), true, uint16(7), []byte{1}, struct{}{}, float64(1.5), []rscp.Message{}, int8(-1), rscp.RscpError(1)}
+var (
+	ptrString = "ptr"
+	ptrUint16 = uint16(9)
+)
+
+// (v10..v13: pointers - to a string, a typed nil pointer, to a uint16 - and a map: "exactly the next argument" means the very pointer)
+var builderValues = []interface{}{"str", int(5), true, uint16(7), []byte{1}, struct{}{}, float64(1.5), []rscp.Message{}, int8(-1), rscp.RscpError(1),
+	&ptrString, (*string)(nil), &ptrUint16, map[string]int{"a": 1}}
+
+// sameValue: the message holds exactly the argument - for pointers the same pointer, not an equal pointee
+func sameValue(arg, got interface{}) bool {
+	if reflect.TypeOf(arg) != reflect.TypeOf(got) {
+		return false
+	}
+	if va := reflect.ValueOf(arg); va.Kind() == reflect.Ptr {
+		return va.Pointer() == reflect.ValueOf(got).Pointer()
+	}
+	return reflect.DeepEqual(arg, got)
+}
 
 func argOfTok(t string) interface{} {
 	if t == "nil" {
@@ -52,7 +70,7 @@ func bmsgStr(m rscp.Message) string {
 	default:
 		p = "v?"
 		for k, bv := range builderValues {
-			if reflect.DeepEqual(bv, v) {
+			if sameValue(bv, v) {
 				p = fmt.Sprintf("v%d", k)
 			}
 		}
@@ -88,7 +106,7 @@ func init() {
 		return 0
 	}
 	props["C18"] = &prop{
-		rule: "all argument lists of length <= 4 over a 12 symbol alphabet (tags of type None, Bool, CString, Container x2, Timestamp, an unknown tag, a response tag; values string, int, nil; a DataType constant) = 22,620 lists, exhaustively, + random lists of length <= 14 over a wider alphabet + CreateRequests on 0..4 lists; non-trivial = the list starts with a tag; distinct by case line",
+		rule: "all argument lists of length <= 4 over a 12 symbol alphabet (tags of type None, Bool, CString, Container x2, Timestamp, an unknown tag, a response tag; values string, int, nil; a DataType constant) = 22,620 lists, exhaustively, + random lists of length <= 14 over a wider alphabet (every data type's tags, Go values of 14 kinds incl. pointers, a typed nil pointer and a map) + CreateRequests on 0..4 lists; non-trivial = the list starts with a tag; distinct by case line",
 		gen: func(tier string, r *rng, emit func(string)) {
 			alpha := []string{
 				fmt.Sprintf("t%d", uint32(tagOf(rscp.None, true))), fmt.Sprintf("t%d", uint32(tagOf(rscp.Bool, true))),
